@@ -145,6 +145,17 @@ def input_plain(it, job):
     d = diff(before, osm.snapshot())
     if d:
         return ("X1-leaving-restores-what-entering-changed", desc, d)
+    # the same Input used again from the other kind of thread (an object created and first used on the main thread, handed to a worker)
+    osm.main_thread = not main
+    desc += "; then the same Input is entered and left on the %s thread" % ("non-main" if main else "main")
+    before = osm.snapshot()
+    r = _must(it.callm(inp, "__enter__"), "Input.__enter__")
+    if r[0] != "ok":
+        return ("X1-leaving-restores-what-entering-changed", desc, "the second __enter__ raised %s" % (r[1],))
+    r = _must(_exit(it, inp, exc), "Input.__exit__")
+    d = diff(before, osm.snapshot())
+    if r[0] != "ok" or d:
+        return ("X1-leaving-restores-what-entering-changed", desc, ("the second __exit__ raised %s; " % (r[1],) if r[0] != "ok" else "") + (d or "the state is restored"))
     return None
 
 
